@@ -277,6 +277,8 @@ def run(ctx):
                     break
                 net = netkit.gen_network(rng)
             net["policy"] = ["MyopicNaiveGreedyDecision", "AllVisibleDecision", "RandomDecision", "MyopicNaiveGreedyDecision"][ctx.shard]
+            if ctx.shard == 3:
+                net["split_engines"], net["shared_target"] = True, True   # two engines observing one shared target in the same step
             for sdesc in net["sensors"]:
                 sdesc["fov"] = "narrow"
                 sdesc["slew"] = 180.0
@@ -289,6 +291,7 @@ def run(ctx):
         netkit.maybe_sub_second_start(net, rng)
         if len(net["sensors"]) >= 2 and len(net["targets"]) >= 2 and rng.random() < 0.3:
             net["split_engines"] = True
+            net["shared_target"] = rng.random() < 0.6
             ctx.count("nets_with_two_engines")
             if rng.random() < 0.6:
                 # both engines should produce misses in the same step: narrow fields of view around a poor initial estimate
